@@ -6,7 +6,7 @@ Number and text classes follow DESIGN.md 3.2.
 """
 import math
 
-NAME_POOL = ["words", "phones", "e\u0301", "\u212b", "t 1", 'q"uote', 'dq""uote', "a=b", "7", "é𝄞", "x" * 40, "Mary's", "tier[1]", "100%", " lead", "trail ", "  both  "]
+NAME_POOL = ["words", "phones", "e\u0301", "\u212b", "t 1", 'q"uote', 'dq""uote', "a=b", "7", "é𝄞", "x" * 40, "Mary's", "tier[1]", "100%", " lead", "trail ", "  both  ", "xmax = 9", "xmin=1.5", "number = 3"]  # (the last three look like fields of the long layout)
 LABEL_POOL = [
     "", "a", "hello world", "7", "3.14", "-0", "x = y", 'say "hi"', '""', '"', 'a""b', '"start', 'end"', '"both"', "line1\nline2", "a\n\nb",
     'q"\n"r', "é", "日本語", "𝄞 clef", "tab\tinside", "a!b", "! bang", "<exists>", "semi;colon", "back\\slash", "x" * 300, "a  b", "%d %s",
@@ -34,7 +34,19 @@ def splits_reader(s):
 
 
 def data_splits_reader(data):
-    return any(splits_reader(t["name"]) or any(splits_reader(e[-1]) for e in t["entries"]) for t in data["tiers"])
+    """the known-finding mechanism, tier by tier: a tier name with any of the tokens; a label with `item [`, a quoted tier class,
+    `ooTextFile short` - or with the entry marker of ITS OWN tier type (`intervals [` in an interval tier, `points [` in a point
+    tier).  The marker of the other tier type inside a label is harmless for the readers and is judged like any other text."""
+    for t in data["tiers"]:
+        if splits_reader(t["name"]):
+            return True
+        own = ("intervals [", "intervals[") if t["t"] == "I" else ("points [", "points[")
+        other = ("points [", "points[") if t["t"] == "I" else ("intervals [", "intervals[")
+        for e in t["entries"]:
+            lab = e[-1]
+            if any(k in lab for k in READER_SPLIT_TOKENS if k not in other) or any(k in lab for k in own):
+                return True
+    return False
 
 
 def number_classes(rng, hi=10.0):
